@@ -235,7 +235,7 @@ def run_session_check(prop, tier, replay=None):
             geo = os.path.join(wd, "geo")
             shutil.rmtree(geo, ignore_errors=True)
             vh(["shading", "--generated", "27" if quick else "360", "--dump-only", geo, "--out", os.path.join(wd, "unused.ndjson")], timeout=600)
-            extra += ["--models-dir", geo]
+            extra += ["--models-dir", geo, "--variants"]
         stats = vh(["session", "--corpus", "--cases", cases_file, "--random", str(nr), "--broken", str(nb),
                     "--size", "4" if quick else "6", "--out", trace] + extra, timeout=7200)
     events = read_ndjson(trace)
